@@ -328,10 +328,37 @@ def main():
         viol_paths.append(write_replay(prop, v))
     if m["violations"] and not m.get("crash_replays") and "Replay" not in cfg.get("skip", []):  # (race reports have no replay)
         outs = replay_twice(cfg, binp, viol_paths[0])
+        flaky_note = None
+        if outs[0] != outs[1] and cfg.get("nondeterminism_is_violation"):
+            # The property itself is "same input, same answer". If the recorded execution does not replay identically
+            # although every choice the harness owns is fixed, the implementation has a source of nondeterminism the
+            # harness does not own (goroutines started outside errgroup, real time, randomness). That is believed only
+            # if the recorded case violates again in at least one of five fresh processes.
+            more = outs + replay_twice(cfg, binp, viol_paths[0]) + replay_twice(cfg, binp, viol_paths[0])[:1]
+            hits = sum(1 for o in more if o[0] == 1)
+            if hits >= 1:
+                flaky_note = ("the recorded execution violates in %d of %d fresh replays with every harness-owned choice fixed: "
+                              "the implementation carries nondeterminism outside the controlled scheduler" % (hits, len(more)))
+                outs = [o for o in more if o[0] == 1][:1] * 2
+        if outs[0] != outs[1] and outs[0][0] == 1 and outs[1][0] == 1:
+            # violated in both fresh processes; only the reported observation differs (e.g. which of several wrong
+            # results a free goroutine produced)
+            flaky_note = flaky_note or "the recorded case violates again in both fresh replays, with different observed values"
+            outs = [outs[0], outs[0]]
+        if outs[0] != outs[1] and race_path:
+            # the exploration's violation does not replay, but the free-running pass has a race report of its own: that
+            # is the verdict; the unreproducible violation is only mentioned
+            lines.append("(a violation found by the exploration did not replay identically and is not reported; the data race above most likely explains it)")
+            for pth in viol_paths:
+                os.remove(pth)
+            viol_paths, m["violations"] = [], []
+            outs = [(1, ""), (1, "")]
         if outs[0] != outs[1]:
             print("HARNESS-ERROR: replaying the first violation twice gave different observations; not reported as a verdict")
             print(outs[0][1][-2000:], "\n----\n", outs[1][1][-2000:])
             sys.exit(2)
+        if flaky_note:
+            history_note = flaky_note
         if outs[0][0] != 1:
             # Not reproducible in isolation. It may depend on what the same worker executed before (state carried
             # between evaluations): re-run that whole shard twice; if the very same case fails again both times it is
@@ -344,6 +371,11 @@ def main():
                 os.remove(viol_paths[0])
                 viol_paths[0] = write_replay(prop, v0)
                 history_note = "history-dependent violation (state carried between evaluations): reproduced by re-running shard %s/%s twice" % (v0.get("shard"), v0.get("nshards"))
+            elif race_path:
+                lines.append("(a violation found by the exploration reproduced neither from its replay file nor by re-running its shard and is not reported; the data race above most likely explains it)")
+                for pth in viol_paths:
+                    os.remove(pth)
+                viol_paths, m["violations"] = [], []
             else:
                 print("HARNESS-ERROR: the first violation reproduces neither from its replay file (rc=%d) nor by re-running its shard" % outs[0][0])
                 print(outs[0][1][-2000:])
